@@ -70,8 +70,29 @@ impl Automaton for Table {
     }
 }
 
+/// the same transition table as a user automaton that implements ONLY what the trait requires
+/// (`start`, `is_match`, `accept`) and relies on the trait's defaults for `can_match`,
+/// `will_always_match` and `accept_eof`
+#[derive(Clone, Debug)]
+pub struct TableDefaults(pub Table);
+
+impl Automaton for TableDefaults {
+    type State = usize;
+    fn start(&self) -> usize {
+        self.0.start
+    }
+    fn is_match(&self, s: &usize) -> bool {
+        self.0.matching[*s]
+    }
+    fn accept(&self, s: &usize, b: u8) -> usize {
+        self.0.delta[*s][self.0.cls(b)]
+    }
+}
+
 #[derive(Clone, Debug)]
 pub enum AutSpec {
+    /// `dfd:…`: a table automaton without hint methods (trait defaults)
+    DfaD(Table),
     Always,
     Str(Vec<u8>),
     Subseq(Vec<u8>),
@@ -112,7 +133,8 @@ pub fn parse(s: &str) -> Option<AutSpec> {
         let d: u32 = it.next()?.parse().ok()?;
         return Some(AutSpec::Lev(q, d));
     }
-    if let Some(r) = s.strip_prefix("dfa:") {
+    let defaults = s.starts_with("dfd:");
+    if let Some(r) = s.strip_prefix("dfa:").or_else(|| s.strip_prefix("dfd:")) {
         let p: Vec<&str> = r.split(':').collect();
         if p.len() != 7 {
             return None;
@@ -132,7 +154,7 @@ pub fn parse(s: &str) -> Option<AutSpec> {
         let bits = |s: &str| -> Vec<bool> {
             s.bytes().map(|c| c == b'1').collect()
         };
-        return Some(AutSpec::Dfa(Table {
+        let t = Table {
             nstates: n,
             start,
             classes,
@@ -140,7 +162,8 @@ pub fn parse(s: &str) -> Option<AutSpec> {
             matching: bits(p[4]),
             can: bits(p[5]),
             will: bits(p[6]),
-        }));
+        };
+        return Some(if defaults { AutSpec::DfaD(t) } else { AutSpec::Dfa(t) });
     }
     let inner = |pre: &str| -> Option<&str> {
         if s.starts_with(pre) && s.ends_with(')') {
@@ -173,6 +196,7 @@ impl AutSpec {
             AutSpec::Str(s) => format!("str:{}", crate::util::hex(s)),
             AutSpec::Subseq(s) => format!("subseq:{}", crate::util::hex(s)),
             AutSpec::Dfa(t) => t.spec(),
+            AutSpec::DfaD(t) => t.spec().replacen("dfa:", "dfd:", 1),
             AutSpec::Lev(q, d) => {
                 format!("lev:{}:{}", crate::util::hex(q.as_bytes()), d)
             }
@@ -189,6 +213,7 @@ impl AutSpec {
                 | AutSpec::Str(_)
                 | AutSpec::Subseq(_)
                 | AutSpec::Dfa(_)
+                | AutSpec::DfaD(_)
                 | AutSpec::Lev(_, _)
         )
     }
@@ -284,6 +309,7 @@ pub fn build(spec: &AutSpec) -> Option<BoxAut> {
         AutSpec::Dfa(t) => {
             BoxAut(Box::new(Erase(t.clone(), |s: &usize| s.to_string())))
         }
+        AutSpec::DfaD(t) => BoxAut(Box::new(Erase(TableDefaults(t.clone()), |s: &usize| s.to_string()))),
         AutSpec::Lev(q, d) => BoxAut(Box::new(Erase(
             Levenshtein::new(q, *d).ok()?,
             |s: &Option<usize>| show_on(s),
@@ -371,7 +397,7 @@ pub fn lang(spec: &AutSpec, w: &[u8]) -> Option<bool> {
         AutSpec::Always => true,
         AutSpec::Str(s) => &s[..] == w,
         AutSpec::Subseq(s) => is_subseq(s, w),
-        AutSpec::Dfa(t) => {
+        AutSpec::Dfa(t) | AutSpec::DfaD(t) => {
             let mut s = t.start;
             for &b in w {
                 s = t.delta[s][t.cls(b)];
